@@ -11,7 +11,8 @@ DATA = [0, 1, 5, 7, 13, 255, 0x7FFFFFFF, 0x80000000, 0xFFFFFFFF, 0x100000001]
 class C19(Prop):
     id = "C19"
     title = "Cross-thread notifications are never lost or merged; shutdown terminates"
-    lean_modules = ["NV.C19.Props", "NV.C19.PropsExt", "NV.C19.BlockedCounters", "NV.C19.Global", "NV.C19.Witness",
+    lean_modules = ["NV.C19.Props", "NV.C19.PropsExt", "NV.C19.BlockedCounters", "NV.C19.LocksProps", "NV.C19.Eventfd", "NV.C19.Global",
+                    "NV.C19.Witness",
                     "NV.C19.WitnessPoll", "NV.C19.Negative"]
     theorems = ["NV.C19.model_satisfies_spec", "NV.C19.posts_delivered_exactly_once", "NV.C19.posts_multiset_preserved",
                 "NV.C19.post_refused_only_when_full", "NV.C19.no_lost_wakeup",
@@ -28,6 +29,13 @@ class C19(Prop):
                 # ... and the theorems over all schedules
                 "NV.C19.bell_value_irrelevant", "NV.C19.blocked_writers_fifo_exactly_once",
                 "NV.C19.blocked_writers_counters",
+                # lock discipline on every path of the function bodies regenerated from the clang AST
+                "NV.C19.locked_functions_accepted", "NV.C19.lock_discipline_all_paths",
+                "NV.C19.locked_functions_nontrivial", "NV.C19.chk_sound", "NV.C19.okBody_sound",
+                "NV.C19.mutex_excludes_accesses",
+                # eventfd counter bound as an explicit hypothesis
+                "NV.C19.post_exact_below_overflow", "NV.C19.post_at_overflow_still_queued", "NV.C19.bell_le_steps",
+                "NV.C19.no_doorbell_overflow",
                 "NV.C19.no_writer_left_asleep", "NV.C19.waiting_writer_wakes", "NV.C19.woken_writer_pushes",
                 "NV.C19.drained_queue_releases_a_writer", "NV.C19.drop_oldest_never_blocks",
                 "NV.C19.console_worker_exits_after_stop", "NV.C19.console_worker_hangs_on_block_writer_queue",
@@ -68,7 +76,7 @@ class C19(Prop):
                  "constants, comparison operators and statement orders (regex over the comment-stripped function bodies, "
                  "bridging lemmas as obligations) + model/implementation correspondence on sequentialised schedules for "
                  "BOTH POSIX back ends (epoll, and the poll back end compiled on Linux) + real multi-thread runs "
-                 "+ ThreadSanitizer (runtime part)")
+                 "+ clang-AST translation of the locked function bodies + ThreadSanitizer (runtime part, incl. the full backend() loop)")
     level_text = ("Lean 4 theorems about executable models of the event loop of both POSIX back ends (doorbell + completion "
                   "ring; epoll/eventfd and poll/pipe are shown to be the same machine), async_queue (ring indices, "
                   "drop-oldest / block-writer / fail; any number of writers asleep on the auto-reset event, clear at any "
@@ -76,7 +84,11 @@ class C19(Prop):
                   "(terminates within five of its steps from every state at which stop is requested; chunk enqueued "
                   "before its completion), the portable timer (stop flag, timed condition wait, join) and the "
                   "heart-beat flag protocol (a tick is never swallowed by the clear and never leaves the backend in a "
-                  "blocking wait), quantified over every scheduler choice; the models are tied to the source by "
+                  "blocking wait), quantified over every scheduler choice; the lock discipline of async_queue and of both "
+                  "completion rings (every access to a shared field inside a lock...unlock bracket, on every path through "
+                  "the function bodies regenerated from the clang AST; checker proved sound; accesses of different threads "
+                  "ordered by the mutex); exact enqueue / dequeue / dropped counters under any interleaving; the eventfd "
+                  "overflow bound as an explicit hypothesis; the models are tied to the source by "
                   "regenerated constants / operators / statement orders and by running the real code and the model on "
                   "the same sequentialised schedules (identical traces); the Lean oracle judges every implementation "
                   "trace, including real multi-thread runs; `judgeEv (events cmds) = []` is proved for all command lists")
@@ -95,20 +107,28 @@ class C19(Prop):
             "queue, qclear = several writers asleep while the consumer clears, worker, timer, console = the real console "
             "worker on a pipe with shutdown at four stages of its life); a case is non-trivial when its trace has >= 2 "
             "lines; distinct = distinct canonical implementation trace")
-    not_covered = ["data races: runtime check only (ThreadSanitizer on the runs made), no proof",
+    not_covered = ["data races: for head/tail/count/counters/slots of async_queue and ring/ring_head/ring_count of both "
+                   "rings the lock discipline is PROVED on every path of the regenerated bodies (hypothesis: the mutex "
+                   "works); every other shared location (worker state, timer flags, heart_beat_flag, event internals) is "
+                   "checked only by ThreadSanitizer on the runs made, incl. the full backend() loop",
                    "kernel scheduling fairness; the IOCP back end and async_worker_win32.c (Windows); BSD/macOS pipe and "
                    "poll() semantics where they differ from Linux (the poll back end runs on Linux pipes here)",
-                   "the full backend() loop is not run under ThreadSanitizer; the heart-beat protocol theorems are about "
-                   "the model HbSys, tied to src/backend.c by the order of three statements (hb_protocol_eq) and the "
-                   "TSan run of the real callback against the real call_heart_beat - there is no trace-level "
-                   "correspondence for it",
-                   "eventfd counter overflow after 2^64-2 un-waited doorbell writes (post would return -1 although the "
-                   "completion is queued and delivered)",
+                   "the heart-beat protocol theorems are about the model HbSys, tied to src/backend.c by the order of "
+                   "three statements (hb_protocol_eq), the `hbowed` run (real callback inside the real call_heart_beat) "
+                   "and the full backend() loop under ThreadSanitizer - its blocking-wait clause has no trace-level "
+                   "correspondence",
+                   "beyond 2^64-2 un-waited doorbell writes (explicit hypothesis eventfdMax; at the bound a post returns "
+                   "-1 although the completion is queued and delivered: post_at_overflow_still_queued)",
+                   "the lock translator reduces expressions to accesses in source order (no aliasing beyond locals "
+                   "initialised from get_slot / &ring[i]; macros as clang expands them); the three structures are "
+                   "opaque (defined inside their .c files), so only the functions of those files - all of them scanned - "
+                   "can name the fields",
                    "async_runtime_wait: time-out conversion, EINTR, MAX_EVENTS clamp, socket readiness branch; "
                    "async_runtime_add/modify/remove",
                    "error paths of the constructors (calloc / pthread_create / event init failing)",
                    "timer drift correction (next_tick arithmetic); platform_event_reset, timed event wait, mutex_trylock",
-                   "process_io console branch in src/comm.c (needs the initialised driver: C12/C13 harnesses)"]
+                   "process_io console branch in src/comm.c: only observed end to end (`mt backend`: 40 console lines "
+                   "through the real loop, once each, in order), not modelled"]
 
     # ---- translator: ORDER of the state stores relative to the spawn / the user procedure -------------------
     STATE_NAMES = {"ASYNC_WORKER_STOPPED": "workerStopped", "ASYNC_WORKER_RUNNING": "workerRunning",
@@ -185,6 +205,15 @@ class C19(Prop):
             raise X.TieBroken("const:async_worker_join", "poll sleep / elapsed step of the timed join not recognised")
         b = lambda v: "true" if v else "false"
         more = self._gen_round5(body_of, pos, b)
+        # every Boolean shape the translator found NOT to hold, with its description: reported by extra_checks as a
+        # tie-broken problem that names the site (the Lean bridging lemma fails as well, but names only its module)
+        self._shape_failures = []
+        for i, l in enumerate(more):
+            m = re.match(r"def (\w+) : Bool := false", l)
+            if m:
+                self._shape_failures.append((m.group(1), more[i - 1] if i else ""))
+        from props import c19_extract
+        more.append(c19_extract.gen_locks(bdir))
         return "\n".join(more + [
             "/-- C: in `async_runtime_wait` the doorbell `read(event_fd)` stands before `pthread_mutex_lock(&ring_lock)` -/",
             "def waitReadsBellBeforeLock : Bool := " + b(rd < lk),
@@ -204,6 +233,35 @@ class C19(Prop):
             "def wrapperStoresBeforeProc : List Nat := " + fmt(wb),
             "/-- C: values stored into `worker->state` in `worker_thread_proc` after `worker->proc(...)` returned -/",
             "def wrapperStoresAfterProc : List Nat := " + fmt(wa)])
+
+    def _direct_flag_accesses(self):
+        """(file, line) of every mention of heart_beat_flag in the driver sources that is neither its definition, its
+        extern declaration nor one of the two accessor macros"""
+        import re
+        bad = []
+        for top in ("src", "lib"):
+            for root, _, files in os.walk(os.path.join(E.REPO, top)):
+                for fn in files:
+                    if not fn.endswith((".c", ".h", ".cpp", ".hpp")):
+                        continue
+                    path = os.path.join(root, fn)
+                    try:
+                        txt = open(path, errors="replace").read()
+                    except OSError:
+                        continue
+                    if "heart_beat_flag" not in txt:
+                        continue
+                    txt = re.sub(r"/\*.*?\*/", lambda m: re.sub(r"[^\n]", " ", m.group(0)), txt, flags=re.S)
+                    for no, line in enumerate(txt.splitlines(), 1):
+                        line = re.sub(r"//.*", "", line)
+                        if not re.search(r"\bheart_beat_flag\b", line):
+                            continue
+                        if re.match(r"\s*(extern\s+)?(volatile\s+)?int\s+heart_beat_flag\s*(=\s*0\s*)?;", line):
+                            continue
+                        if re.match(r"\s*#\s*define\s+(SET_)?HEART_BEAT_FLAG\(", line):
+                            continue
+                        bad.append("%s:%d" % (os.path.relpath(path, E.REPO), no))
+        return bad
 
     def _gen_round5(self, body_of, pos, b):
         """translator, extension round: the poll back end, the hand-copied tests of async_queue, the loops of the
@@ -351,7 +409,8 @@ class C19(Prop):
                 "/-- C: a select time-out (`ret == 0`) and EINTR `continue` (back to the stop test); errors and EOF `break` -/",
                 "def consoleLoopExits : Bool := " + b(
                     has(cp, r"ret\s*==\s*0\s*\)\s*\{\s*continue\s*;") and has(cp, r"bytes_read\s*==\s*0\s*\)\s*\{[^}]*break\s*;")
-                    and len(re.findall(r"\bbreak\s*;", cp)) == 3 and len(re.findall(r"\bcontinue\s*;", cp)) == 3),
+                    and has(cp, r"ret\s*<\s*0\s*\)\s*\{\s*if\s*\(\s*errno\s*==\s*EINTR\s*\)\s*\{\s*continue\s*;\s*\}[^}]*break\s*;")
+                    and has(cp, r"bytes_read\s*<\s*0\s*\)\s*\{\s*if\s*\([^)]*EINTR[^)]*\)\s*\{\s*continue\s*;\s*\}[^}]*break\s*;")),
                 "/-- C: `console_worker_shutdown` = `async_worker_signal_stop` then `async_worker_join(worker, timeout_ms)` -/",
                 "def consoleShutdownOrder : Bool := " + b(ordered(cs, [r"async_worker_signal_stop\s*\(", r"return\s+async_worker_join\s*\("]))]
         # -- timer thread --------------------------------------------------------------------------------------
@@ -374,9 +433,14 @@ class C19(Prop):
         ch = body_of(be, "call_heart_beat", "hb:call_heart_beat")
         acc = has(be, r"#\s*define\s+HEART_BEAT_FLAG\(\)\s+platform_atomic_load_int\s*\(\s*&heart_beat_flag\s*\)") and \
             has(be, r"#\s*define\s+SET_HEART_BEAT_FLAG\(v\)\s+platform_atomic_store_int\s*\(\s*&heart_beat_flag") and \
-            len(re.findall(r"\bheart_beat_flag\b", re.sub(r"//[^\n]*", " ", re.sub(r"/\*.*?\*/", " ", be, flags=re.S)))) == 3
-        first_stmt = re.search(r"^\s*object_t\s*\*\s*ob\s*;\s*SET_HEART_BEAT_FLAG\s*\(\s*0\s*\)\s*;", ch) is not None
-        out += ["/-- C: heart_beat_flag is touched only through the atomic accessors (definition + the two macros are its only mentions) -/",
+            not self._direct_flag_accesses()
+        # first statement behind the local declarations (however many there are)
+        chs = ch
+        decl = re.compile(r"^\s*(?:static\s+|const\s+|register\s+)*[A-Za-z_]\w*(?:\s+[A-Za-z_]\w*)*[\s\*]+[A-Za-z_]\w*\s*(?:=[^;]*)?;")
+        while decl.match(chs):
+            chs = chs[decl.match(chs).end():]
+        first_stmt = re.match(r"\s*SET_HEART_BEAT_FLAG\s*\(\s*0\s*\)\s*;", chs) is not None
+        out += ["/-- C: heart_beat_flag is touched only through the atomic accessors: in src/ and lib/ the identifier occurs only in its definition, its `extern` declaration and the two accessor macros -/",
                 "def hbFlagAtomicOnly : Bool := " + b(acc),
                 "/-- C: `SET_HEART_BEAT_FLAG(0)` is the first statement of call_heart_beat (before the round), and the round is `while (!HEART_BEAT_FLAG())` -/",
                 "def hbClearsFlagFirst : Bool := " + b(first_stmt and has(ch, r"while\s*\(\s*!HEART_BEAT_FLAG\s*\(\s*\)\s*\)")),
@@ -406,6 +470,50 @@ class C19(Prop):
                                             with_common=False, exclude_objs=("backend.c.o",))
         return self.hb_exe
 
+    def be(self, ctx):
+        """the full driver under ThreadSanitizer (harness/c19/c19be.c + harness/common/vh.c, base mudlib)"""
+        if getattr(self, "be_exe", None) is None:
+            self.be_exe = E.compile_harness("c19be", [os.path.join(E.VERIF, "harness/c19/c19be.c")], kind="tsan",
+                                            extra=["-Wl,--wrap=platform_timer_start"])
+            self.be_conf = E.make_mudlib(os.path.join(ctx.rundir, "be"))
+        return self.be_exe
+
+    def _run_be(self, ctx, cases, env):
+        """run through vh_main; ThreadSanitizer reports are taken from the kept stderr of every case"""
+        import re
+        rundir = os.path.join(ctx.rundir, "be")
+        keep = os.path.join(rundir, "stderr")
+        os.makedirs(keep, exist_ok=True)
+        exe = self.be(ctx)
+        p = E.run([exe, "--conf", self.be_conf, "--scratch", rundir, "--keep-stderr", keep, "--timeout", "120"],
+                  input=E.cases_text(cases), env=env, timeout=3000, cwd=rundir)
+        res = E.parse_cases_output(p.stdout)
+        for c in cases:
+            if c.id not in res:
+                res[c.id] = ["crash harness-process rc=%d" % p.returncode]
+            races = set()
+            try:
+                for line in open(os.path.join(keep, c.id + ".stderr"), errors="replace"):
+                    m = re.search(r"SUMMARY: ThreadSanitizer: ([^/(]+?)\s+\S*\s*in (\S+)", line) or \
+                        re.search(r"SUMMARY: ThreadSanitizer: ([^/(]+?)\s*[/(]", line)
+                    if m:
+                        kind = m.group(1).strip().replace(" ", "-")
+                        fn = m.group(2) if m.lastindex and m.lastindex >= 2 else "?"
+                        races.add("race %s %s" % (kind, fn))
+            except OSError:
+                pass
+            # the console lines travel console worker -> line queue -> completion -> process_io -> the user object of
+            # the base mudlib, which echoes them: if it does (its output format belongs to harness/mudlib, so their absence
+            # is not judged), they must be all of them, once, in order
+            seq = [int(m.group(1)) for l in res[c.id] for m in [re.search(r"c19 console line (\d+)", l)] if m]
+            want = [int(t[3]) for l in c.lines for t in [l.split()] if len(t) == 5 and t[:2] == ["mt", "backend"]]
+            out = [l for l in res[c.id] if l.startswith(("mt ", "crash", "race ", "skip"))]
+            if seq and want and seq != list(range(want[0])) and out and out[0] == "mt backend ok":
+                out[0] = "mt backend bad console-lines-through-the-real-backend expected=0..%d got=%s" % (
+                    want[0] - 1, ",".join(map(str, seq[:12])))
+            res[c.id] = out + sorted(races)
+        return res
+
     def _run(self, exe, cases, rundir, env):
         os.makedirs(rundir, exist_ok=True)
         p = E.run([exe, "--scratch", rundir], input=E.cases_text(cases), env=env, timeout=3000, cwd=rundir)
@@ -416,13 +524,39 @@ class C19(Prop):
         return res
 
     def run_impl(self, ctx, cases):
+        be = [c for c in cases if "#tsan-be" in c.lines]
+        cases = [c for c in cases if "#tsan-be" not in c.lines]
         plain = [c for c in cases if "#tsan" not in c.lines and "#tsan-hb" not in c.lines]
         ts = [c for c in cases if "#tsan" in c.lines]
         hb = [c for c in cases if "#tsan-hb" in c.lines]
         res = {}
         tsan_env = {"TSAN_OPTIONS": "halt_on_error=0:exitcode=66:report_thread_leaks=0:second_deadlock_stack=1"}
+        self._harness_problems = getattr(self, "_harness_problems", {})
+
+        def guarded(name, src, cs, fn):
+            """the unit-style harnesses lean on names that belong to OTHER properties' code (statics of src/backend.c,
+            the common harness, the base mudlib): when one of them no longer builds, that is reported as a broken tie
+            naming the harness, and its cases fall back to the model's lines instead of crashing the whole check"""
+            try:
+                return fn()
+            except E.BuildError as e:
+                errs = [l for l in str(e).splitlines() if "error" in l][:3]
+                self._harness_problems[name] = {"kind": "tie-broken", "name": "harness:" + name,
+                                                "detail": "%s no longer builds against the source: %s" % (src, " | ".join(errs))}
+                return {k: self.canon(v) for k, v in self.run_model(ctx, cs).items()}
+        if be:
+            res.update(guarded("c19be", "harness/c19/c19be.c", be, lambda: self._run_be(ctx, be, tsan_env)))
         if hb:
-            res.update(self._run(self.hb(), hb, ctx.rundir, tsan_env))
+            r = guarded("c19hb", "harness/c19/c19hb.c", hb, lambda: self._run(self.hb(), hb, ctx.rundir, tsan_env))
+            for k, v in r.items():
+                if "hbowed not-injected" in v:
+                    # call_heart_beat no longer reads the clock through time(): the injection point is gone
+                    self._harness_problems["hbowed"] = {
+                        "kind": "tie-broken", "name": "harness:hbowed",
+                        "detail": "call_heart_beat() no longer calls time() behind its first statement: the tick "
+                                  "cannot be injected into the round (harness/c19/c19hb.c must be adapted)"}
+                    r[k] = [("hbowed kept" if l == "hbowed not-injected" else l) for l in v]
+            res.update(r)
         if plain:
             res.update(self._run(self.exe, plain, ctx.rundir,
                                  {"ASAN_OPTIONS": "detect_leaks=0:abort_on_error=0", "UBSAN_OPTIONS": "print_stacktrace=0"}))
@@ -465,7 +599,14 @@ class C19(Prop):
                                     "wread", "post 1 7 4", "wend", "wait 8", "wait 8"])
         mk("split-wait-misuse", ["wread", "wend", "wbegin 4", "post 1 1 1", "wbegin 4", "wend", "wait 4", "wbegin 4", "wait 4",
                                  "wend", "wread", "wread", "wend", "wait 4"])
-        mk("ring-full", ["post 1 5 %d" % i for i in range(1026)] + ["wait 64"] * 17 + ["post 1 6 6", "wait 64"])
+        # ring capacity from the source (a harmless change of the constant must keep this case AT the boundary)
+        try:
+            import re
+            rs = int(re.search(r"#\s*define\s+COMPLETION_RING_SIZE\s+(\d+)",
+                               open(os.path.join(E.REPO, "lib/async/async_runtime_epoll.c")).read()).group(1))
+        except Exception:
+            rs = 1024
+        mk("ring-full", ["post 1 5 %d" % i for i in range(rs + 2)] + ["wait 64"] * ((rs + 63) // 64 + 1) + ["post 1 6 6", "wait 64"])
         # more completions than MAX_EVENTS (64, the size of the epoll_wait array) in ONE wait: the copy-out loop is
         # bounded by the caller's max_events, not by the clamp
         mk("wait-beyond-max-events", ["post %d 9 %d" % (1 + i % 3, i) for i in range(150)] + ["wait 200", "wait 200",
@@ -515,6 +656,9 @@ class C19(Prop):
             mk("tsan-" + name, ["#tsan"] + lines)
         # repaired: heart_beat_flag raced between the timer thread and the backend (real callback vs real call_heart_beat)
         mk("tsan-heart-beat-flag", ["#tsan-hb", "hbrace 60"])
+        # the FULL backend() loop of the initialised driver under ThreadSanitizer: real timer thread (2 ms), real console
+        # worker on a pipe, the backend thread - 300 cycles, 40 console lines
+        mk("tsan-backend-loop", ["#tsan-be", "mt backend 300 40 2000"])
         # the real callback run INSIDE the real call_heart_beat (interposed time()): the tick must still be owed
         mk("heart-beat-tick-in-round", ["#tsan-hb", "hbowed", "hbowed"])
         # repaired: async_queue_clear left a writer blocked on the full queue asleep (nothing ever set not_full again)
@@ -680,6 +824,12 @@ class C19(Prop):
     def extra_checks(self, ctx, tier, rng):
         """the oracle accepts every trace of the model: proved (NV.C19.model_satisfies_spec); this re-tests the COMPILED
         driver (parser, render/parseEv round trip) on fresh schedules"""
+        probs = [{"kind": "tie-broken", "name": "shape:" + n,
+                  "detail": "the source no longer has the shape the model mirrors: " + d.strip("/- ")}
+                 for n, d in getattr(self, "_shape_failures", [])]
+        probs += list(getattr(self, "_harness_problems", {}).values())
+        if probs:
+            return probs
         cases = self.generate(rng, 60 if tier == "quick" else 600, "model-only")
         model = {k: self.canon(v) for k, v in self.run_model(ctx, cases).items()}
         jd = self.run_judge(ctx, cases, model)
